@@ -3,6 +3,7 @@ package main
 import (
 	"encoding/json"
 	"os/exec"
+	"sync"
 	"flag"
 	"fmt"
 	"os"
@@ -488,6 +489,34 @@ func checkShard(propV, tierV, shard string) *checkAcc {
 			to = h.Timeout
 		}
 		solveAll(res, to, true)
+		// thorough tier: every "unsat" is confirmed independently by a second solver (in parallel)
+		confirm := map[int]Verdict{}
+		if *tier == "thorough" {
+			var mu sync.Mutex
+			var wg sync.WaitGroup
+			sem := make(chan struct{}, solvePar)
+			// queries are built one after the other (term construction is not concurrent), solved in parallel
+			qs := map[int]string{}
+			for i, o := range res.Obls {
+				if o.Kind == "canary" || res.Verdicts[i].Status != "unsat" {
+					continue
+				}
+				qs[i] = res.engine.buildQuery(o, nil)
+			}
+			for i, q := range qs {
+				wg.Add(1)
+				sem <- struct{}{}
+				go func(i int, q string) {
+					defer wg.Done()
+					defer func() { <-sem }()
+					c := solveReqDo("", solveReq{Query: q, TimeoutMs: 60000, Second: true})
+					mu.Lock()
+					confirm[i] = c
+					mu.Unlock()
+				}(i, q)
+			}
+			wg.Wait()
+		}
 		// "no view of the borrowed buffer is retained" is one claim of a harness that declares
 		// vBorrowed: its obligations exist only where a store could retain a view, so a change
 		// that introduces such a store introduces a NEW obligation. The claim itself is recorded
@@ -528,7 +557,7 @@ func checkShard(propV, tierV, shard string) *checkAcc {
 			if v.Status == "unsat" {
 				if *tier == "thorough" {
 					// independent confirmation by a second solver
-					c := solveReqDo("", solveReq{Query: res.engine.buildQuery(o, nil), TimeoutMs: 60000, Second: true})
+					c := confirm[i]
 					if c.Status == "unsat" {
 						acc.Confirmations++
 					} else if c.Status == "sat" {
